@@ -322,6 +322,17 @@ func ruleSummaryByBuilder(c *Ctx, rule string) {
 			c.R.Add(rule, "pkg:tree", "builder:node-summary/exists", "-", false, "no node method computes the method summary from the handler map: that every summary carries TRACE when configured and has its rendered entry cannot be established")
 			continue
 		}
+		// the tail of a builder — TRACE clause, store, memo entry — may sit in a setter both builders share
+		// (n.setMethodIndex(index)): then the builder has to reach the setter on every path, and the clauses are
+		// looked for in the setter
+		builder := b
+		if setter := summarySetterOf(a, b); setter != nil {
+			isRet0 := func(in ssa.Instruction) bool { _, ok := in.(*ssa.Return); return ok }
+			reaches := (&an.Query{Target: isRet0, Block: func(in ssa.Instruction) bool { _, ok := calleeIs(in, setter); return ok }}).Search(an.Entry(b)) == nil
+			if reaches {
+				b = setter
+			}
+		}
 		var traceStores []ssa.Instruction
 		an.AllInstrs(b, func(in ssa.Instruction) {
 			if _, field, val, ok := fieldStore(in, a.NodeT); ok && field == a.FSummary {
@@ -349,9 +360,9 @@ func ruleSummaryByBuilder(c *Ctx, rule string) {
 				}
 				return false
 			}}).Search(an.Entry(b)) == nil
-		c.R.Add(rule, c.fk(b), "builder:trace-clause", c.P.Pos(b.Pos()), okTrace, ifelse(okTrace, "with hasTrace every path adds the TRACE bit", "summary builder can return without the TRACE bit although a TRACE handler is configured: TRACE is missing from Allow"))
+		c.R.Add(rule, c.fk(builder), "builder:trace-clause", c.P.Pos(builder.Pos()), okTrace, ifelse(okTrace, "with hasTrace every path adds the TRACE bit", "summary builder can return without the TRACE bit although a TRACE handler is configured: TRACE is missing from Allow"))
 		okMemo := (&an.Query{Target: isRet, Block: func(in ssa.Instruction) bool { _, ok := calleeIs(in, a.MemoBuilder); return ok }}).Search(an.Entry(b)) == nil
-		c.R.Add(rule, c.fk(b), "builder:renders-memo", c.P.Pos(b.Pos()), okMemo, ifelse(okMemo, "every path renders the memo entry of the new summary", "summary builder can return without rendering the memo entry: Allow/Methods() of that summary are empty"))
+		c.R.Add(rule, c.fk(builder), "builder:renders-memo", c.P.Pos(builder.Pos()), okMemo, ifelse(okMemo, "every path renders the memo entry of the new summary", "summary builder can return without rendering the memo entry: Allow/Methods() of that summary are empty"))
 	}
 	// all other stores to a summary field
 	spec := &PairSpec{
@@ -359,6 +370,18 @@ func ruleSummaryByBuilder(c *Ctx, rule string) {
 		IsA: func(f *ssa.Function, in ssa.Instruction) (string, string, bool) {
 			if f == a.NodeSummaryBuilder || f == a.TreeSummaryBuilder {
 				return "", "", false
+			}
+			// the setter the builders share: its store is the builders' store; calling it from anywhere else writes a
+			// summary outside a builder
+			for _, bb := range []*ssa.Function{a.NodeSummaryBuilder, a.TreeSummaryBuilder} {
+				if setter := summarySetterOf(a, bb); setter != nil {
+					if f == setter {
+						return "", "", false
+					}
+					if call, isCall := calleeIs(in, setter); isCall {
+						return canonAlloc(f, an.AP(call.Args[0])), "store:" + a.FSummary, true
+					}
+				}
 			}
 			base, field, val, ok := fieldStore(in, a.NodeT)
 			if !ok || field != a.FSummary {
@@ -552,4 +575,20 @@ func ruleRemoversUpdateTreeSummary(c *Ctx, rule string) {
 func isNamed(t types.Type, n *types.Named) bool {
 	x, ok := types.Unalias(t).(*types.Named)
 	return ok && x.Origin() == n.Origin()
+}
+
+// summarySetterOf: the summary setter a builder hands its computed value to (nil when it stores the summary itself).
+func summarySetterOf(a *Anchors, b *ssa.Function) *ssa.Function {
+	if b == nil {
+		return nil
+	}
+	var setter *ssa.Function
+	an.AllInstrs(b, func(in ssa.Instruction) {
+		if call := an.CallOf(in); call != nil {
+			if g := an.StaticCallee(call); g != nil && isSummarySetter(a, g) {
+				setter = g
+			}
+		}
+	})
+	return setter
 }
